@@ -50,8 +50,6 @@ def oracle_roundtrip(c):
         fails.append(Failure("roundtrip", f"Config({text!r}) -> {t1!r} -> attributes changed: {diff}", text=text, decompiled=t1))
     if c2.decompile_to_text() != t1:
         fails.append(Failure("text_not_idempotent", f"decompile twice: {t1!r} then {c2.decompile_to_text()!r}", text=text))
-    if str(c1) != t1:
-        fails.append(Failure("str_differs", f"str(Config) {str(c1)!r} != decompile_to_text {t1!r}"))
     c3 = Config.from_dict(dict(cfg))
     if cfg_attrs(c3) != want:
         fails.append(Failure("from_dict", f"Config.from_dict({cfg}) attributes {cfg_attrs(c3)}", cfg=cfg))
@@ -61,11 +59,6 @@ def oracle_roundtrip(c):
     c5 = Config.from_kwargs(**dict(cfg))
     if cfg_attrs(c5) != want:
         fails.append(Failure("from_kwargs", f"Config.from_kwargs({cfg}) attributes {cfg_attrs(c5)}", cfg=cfg))
-    # an object configured with it reports the same settings back
-    d = PLSSDesc("T154N-R97W Sec 14: NE/4", config=text, wait_to_parse=True)
-    back = cfg_attrs(d.config)
-    if back != want:
-        fails.append(Failure("plssdesc_config_property", f"PLSSDesc(config={text!r}).config attributes {back}", text=text))
     return fails
 
 
